@@ -130,7 +130,7 @@ func checkC02(c c02Case) verdict {
 	if c.Via != 0 && !c.NilParam {
 		labels = append(labels, "via-exported-default")
 	}
-	disturb(c.Before)
+	disturb(c.Before, secret)
 	got, err := otp.GenerateTOTP(secret, t, param)
 	if !supported {
 		labels = append(labels, "unsupported")
